@@ -57,6 +57,8 @@ class Tr:
                 raise Unsupported(f"self.{e.attr}")
             if (e.value.id, e.attr) in k.attrs: return self.name(k.attrs[(e.value.id, e.attr)])
             raise Unsupported(f"{e.value.id}.{e.attr}")
+        if isinstance(e, ast.Call) and ("call:" + ast.unparse(e)) in k.calls:
+            return (k.calls["call:" + ast.unparse(e)], "Z")                              # a non-elementwise call named by the kernel (its result is a parameter)
         if isinstance(e, ast.UnaryOp):
             v, t = self.expr(e.operand)
             if isinstance(e.op, ast.USub) and t == "Z": return (f"(- {v})", "Z")
@@ -448,7 +450,27 @@ KERNELS += [
            {"starts": "starts0", "ends": "ends0"}, ret="(Z * Z)", branch=rslice_arith),
 ]
 
-GROUPS = {"view": ["gen_calc_len", "gen_pos_col_slice", "gen_neg_col_slice", "gen_col_int", "gen_ends"], "hash": ["gen_hash", "gen_hash_pyint"], "elem": ["gen_get_element"], "rslice": ["gen_rslice_row"], "rle": ["gen_rle_wrap", "gen_rle_slice_bounds", "gen_rle_step_idx", "gen_rl2_step_idx"],
+def window_arith(body):
+    """RunLengthArray._start_to_end, vector branch: the two searchsorted results, the empty-window cut of end_idx, and the last boundary
+    written into every row; the gathers (ragged_slice) between them are left out - they are C08's theorem"""
+    def find(pred):
+        for s in ast.walk(ast.Module(body=body, type_ignores=[])):
+            if isinstance(s, ast.Assign) and pred(s): return s
+        raise Unsupported("_start_to_end: statement not found")
+    a0 = find(lambda s: ast.unparse(s.targets[0]) == "start_idx")
+    a1 = find(lambda s: ast.unparse(s.targets[0]) == "end_idx" and "searchsorted" in ast.unparse(s.value))
+    a2 = find(lambda s: ast.unparse(s.targets[0]) == "end_idx" and "np.where" in ast.unparse(s.value))
+    a3 = find(lambda s: ast.unparse(s.targets[0]) == "events[..., -1]")
+    return [a0, a1, a2, ast.Return(value=ast.Tuple(elts=[ast.Name(id="start_idx"), ast.Name(id="end_idx"), a3.value]))]
+
+
+KERNELS += [
+    Kernel("npstructures/runlengtharray.py", "RunLengthArray", "_start_to_end", "gen_rle_window", [("ssr_", "Z"), ("ssl_", "Z"), ("start", "Z"), ("end_", "Z")], {},
+           ret="(Z * Z * Z)", pre={"end": ("end_", "Z")},
+           calls={"call:np.searchsorted(self._events, start, side='right')": "ssr_", "call:np.searchsorted(self._events, end, side='left')": "ssl_"}, branch=window_arith),
+]
+
+GROUPS = {"view": ["gen_calc_len", "gen_pos_col_slice", "gen_neg_col_slice", "gen_col_int", "gen_ends"], "hash": ["gen_hash", "gen_hash_pyint"], "elem": ["gen_get_element"], "rslice": ["gen_rslice_row"], "rle": ["gen_rle_wrap", "gen_rle_slice_bounds", "gen_rle_step_idx", "gen_rl2_step_idx", "gen_rle_window"],
           "bits": ["gen_bit_init", "gen_bit_get", "gen_bit_get_arr", "gen_bit_unpack", "gen_bit_pack", "gen_bit_window", "gen_bit_window_last"]}
 
 
